@@ -74,6 +74,9 @@ func run(h *hist, seed int64) {
 	var sc *osmpbf.Scanner
 	var rac, hdrLate int64
 	rd.OnStart = func(idx int, eof bool) {
+		if eof && f.Trunc > 0 {
+			return // the end of a truncated file lies INSIDE its last block: not the start of a block read
+		}
 		if sc.VerifPipelineCancelled() {
 			if f.Header && idx == 0 {
 				atomic.AddInt64(&hdrLate, 1)
@@ -247,11 +250,16 @@ func pbfCase(h *hist) *wire.Case {
 }
 
 // ---- XML scanner (sequential) ----
-func xmlDoc(n int) []byte {
+// xmlDoc: n nodes; bad: followed by a node element whose DecodeElement fails (id is not a number)
+// and two more nodes that must never be delivered.
+func xmlDoc(n int, bad bool) []byte {
 	var b bytes.Buffer
 	b.WriteString(`<osm version="0.6">`)
 	for i := 1; i <= n; i++ {
 		fmt.Fprintf(&b, `<node id="%d" lat="1" lon="2" version="1"/>`, i)
+	}
+	if bad {
+		fmt.Fprintf(&b, `<node id="not-a-number" lat="1" lon="2"/><node id="%d" lat="1" lon="2"/><node id="%d" lat="1" lon="2"/>`, n+1, n+2)
 	}
 	b.WriteString(`</osm>`)
 	return b.Bytes()
@@ -273,7 +281,12 @@ func (c *cread) Read(p []byte) (int, error) {
 
 func xmlCase(rng *rand.Rand) *wire.Case {
 	n := rng.Intn(60) + 40 // document is several KiB, the decoder buffers 4 KiB at a time
-	doc := xmlDoc(n)
+	bad := rng.Intn(4) == 0
+	ferr := int64(pipesup.EEOF)
+	if bad {
+		ferr = pipesup.EOther
+	}
+	doc := xmlDoc(n, bad)
 	ctx, cancel := context.WithCancel(context.Background())
 	defer cancel()
 	cr := &cread{r: bytes.NewReader(doc)}
@@ -319,13 +332,13 @@ func xmlCase(rng *rand.Rand) *wire.Case {
 		extra = pulledEnd - pulledAtStop
 	}
 	c := &wire.Case{Class: "xml"}
-	c.Int(2).Int(int64(n))
+	c.Int(2).Int(int64(n)).Int(ferr)
 	c.Len(len(calls))
 	for _, cl := range calls {
 		c.Int(int64(cl.Code)).Int(cl.A).Int(cl.B)
 	}
 	c.Int(extra)
-	c.Desc = map[string]interface{}{"xml_nodes": n, "calls(code,a,b)": calls, "bytes_pulled_after_stop": extra, "doc_bytes": len(doc)}
+	c.Desc = map[string]interface{}{"xml_nodes": n, "then_an_element_that_fails_to_decode": bad, "calls(code,a,b)": calls, "bytes_pulled_after_stop": extra, "doc_bytes": len(doc)}
 	return c
 }
 
@@ -624,6 +637,48 @@ func slowCloseCase(rng *rand.Rand) *wire.Case {
 	return c
 }
 
+// ---- KNOWN FINDING class "close-while-read-blocked": the reader blocks in Read and is NOT released
+// before Close is called.  decoder.Close = cancel(); wg.Wait() waits for the reader goroutine, which
+// is inside Read and cannot see the context, so Close does not return until that Read returns.
+func blockedReadCloseCase(rng *rand.Rand) *wire.Case {
+	procs := 1 + rng.Intn(4)
+	f := pipesup.GenFile(rng, 3*procs+2, false)
+	stall := 1 + rng.Intn(len(f.Items)-1)
+	rd := pipesup.NewReader(f)
+	idx := stall
+	if f.Header {
+		idx++
+	}
+	rd.StallAt = f.Starts[idx]
+	rd.Release = make(chan struct{})
+	sc := osmpbf.New(context.Background(), rd, procs)
+	sc.Scan()
+	for atomic.LoadInt32(&rd.Stalled) == 0 {
+		time.Sleep(200 * time.Microsecond)
+	}
+	done := make(chan struct{})
+	go func() { sc.Close(); close(done) }()
+	returned := false
+	select {
+	case <-done:
+		returned = true
+	case <-time.After(1500 * time.Millisecond):
+	}
+	close(rd.Release) // the Read returns (with an error)
+	after := false
+	select {
+	case <-done:
+		after = true
+	case <-time.After(5 * time.Second):
+	}
+	leaked := pipesup.WaitNoPipeline(2 * time.Second)
+	c := &wire.Case{Class: "blocked-read-close", Known: "close-while-read-blocked"}
+	c.Int(7).Int(int64(procs)).Bool(returned).Bool(after).Int(int64(leaked))
+	c.Desc = map[string]interface{}{"procs": procs, "items": f.Items, "reader_blocks_in_Read_at_block": stall,
+		"Close_returned_within_1.5s_while_Read_blocked": returned, "Close_returned_after_the_Read_returned": after, "goroutines_left": leaked}
+	return c
+}
+
 // safeClose calls Close under a watchdog; false = it did not return within 8 s.
 func safeClose(sc *osmpbf.Scanner) bool {
 	done := make(chan struct{})
@@ -777,6 +832,9 @@ func main() {
 		if c.OracleFail != "" {
 			aborted = true
 		}
+	}
+	if !aborted {
+		w.Add(blockedReadCloseCase(rng))
 	}
 	nXc := int(30 * a.Scale)
 	if a.Tier == "thorough" {
